@@ -20,9 +20,11 @@ with '' exactly where the factor does not apply (applicability computed from the
 program's window parameters, not from the code).  Designs with two factors of
 the same name outside the crossing are included.
 """
+import contextlib
 import copy
 import itertools
 import json
+import signal
 
 import docsem
 import flat
@@ -33,6 +35,37 @@ from common import Violation, parse_sexp
 
 TITLE = "variable allocation and decoding"
 LEVEL = "proof"
+
+
+class RealCodeTimeout(BaseException):
+    """raised by the watchdog (BaseException: the `except Exception` around real-code calls must not swallow it)"""
+
+
+@contextlib.contextmanager
+def time_limit(seconds):
+    def handler(signum, frame):
+        raise RealCodeTimeout()
+    old = signal.signal(signal.SIGALRM, handler)
+    signal.alarm(seconds)
+    try:
+        yield
+    finally:
+        signal.alarm(0)
+        signal.signal(signal.SIGALRM, old)
+
+
+def loops_forever(block, g):
+    """map_block_trial_ranges(g, .) cannot terminate on this block: the step is <= 0 while the
+    loop condition holds (decided from attributes only, without entering the loop)."""
+    from sweetpea._internal.cross_block import AlignmentMode
+    if g is None:
+        return False
+    if g.num_trials - g.preamble_size > 0:
+        return False
+    with ir.quiet():
+        T = block.trials_per_sample()
+        start = (block.preamble_size() - g.preamble_size) if block.alignment == AlignmentMode.POST_PREAMBLE else 0
+    return start < T - g.preamble_size
 
 
 # --------------------------------------------------------------------------- programs
@@ -508,6 +541,9 @@ def run_program(ctx, program, limit_all, nrandom, nsolver):
     block = ir.main_block(built, program)
     if block is None:
         return {"status": "rejected", "errors": [v[1] for v in built.errors.values()]}
+    if any(loops_forever(block, g) for g in layout_real.geoms_of(block)):
+        # compiling this design does not terminate (a finding of C26: sig ranges:nontermination); nothing to observe
+        return {"status": "nonterminating", "errors": []}
     with ir.quiet():
         vps = block.variables_per_sample()
         T = block.trials_per_sample()
@@ -607,7 +643,10 @@ def run(ctx, res):
     lines = []
     for tag, p in progs:
         try:
-            r = run_program(ctx, p, limit_all, nrandom, 3)
+            with time_limit(30):
+                r = run_program(ctx, p, limit_all, nrandom, 3)
+        except RealCodeTimeout:
+            r = {"status": "timeout", "errors": []}
         except Exception as e:  # noqa
             r = {"status": "harness-error", "errors": [type(e).__name__ + ": " + str(e)[:200]]}
         r["tag"] = tag
@@ -619,7 +658,7 @@ def run(ctx, res):
                                                                      for _, a, _ in r["sols"])))
     outs = ctx.model(lines) if lines else []
     oi = 0
-    stats = {"rejected": 0, "built": 0, "harness-error": 0, "complex": 0, "sustain>1": 0, "complex+sustain": 0,
+    stats = {"rejected": 0, "built": 0, "harness-error": 0, "nonterminating": 0, "timeout": 0, "complex": 0, "sustain>1": 0, "complex+sustain": 0,
              "same-name": 0, "wf_layout": 0, "keys_distinct": 0, "exhaustive-onehot": 0, "solver-models": 0, "decode-errors": 0, "assignments": 0}
     shapes = {}
     corr_bad = []
@@ -633,6 +672,8 @@ def run(ctx, res):
             res.count(key, nontrivial=False)
             if r["status"] == "harness-error":
                 corr_bad.append(("harness", p, r["errors"]))
+            if r["status"] == "timeout":
+                found.append(("search:real-code-timeout", "the real code does not return within 30 s on an accepted design", {}, p))
             continue
         block = r["block"]
         res.count(key, nontrivial=r["vps"] > 0)
@@ -680,7 +721,10 @@ def run(ctx, res):
             if not ok:
                 corr_bad.append(("L6-decode-" + kind, p, {"assignment": a, "real": real, "model": mod}))
         try:
-            bads = search_program(ctx, p, r)
+            with time_limit(30):
+                bads = search_program(ctx, p, r)
+        except RealCodeTimeout:
+            bads = [("search:real-code-timeout", "the real code does not return within 30 s while the layout of an accepted design is inspected", {})]
         except Exception as e:  # noqa
             import traceback
             bads = [("search:real-code-raises", "the real code raises %s: %s while the layout of an accepted design is inspected (%s)"
